@@ -67,6 +67,7 @@ var scanRules = map[string]scanRule{
 	"mark-flow": func(a *scandfa.Analysis) []*report.RuleResult { r, _ := a.MarkFlow(); return []*report.RuleResult{r} },
 	"newline-neutral": func(a *scandfa.Analysis) []*report.RuleResult { return []*report.RuleResult{a.NewlineNeutral()} },
 	"token-bounds": func(a *scandfa.Analysis) []*report.RuleResult { return []*report.RuleResult{a.TokenBounds()} },
+	"heredoc-spec": func(a *scandfa.Analysis) []*report.RuleResult { return []*report.RuleResult{a.HeredocSpec()} },
 	"no-rescan":        func(a *scandfa.Analysis) []*report.RuleResult { return []*report.RuleResult{a.NoRescan()} },
 	"eof-final":        func(a *scandfa.Analysis) []*report.RuleResult { return []*report.RuleResult{a.EofFinal()} },
 	"num-classify":     func(a *scandfa.Analysis) []*report.RuleResult { return []*report.RuleResult{a.NumClassify()} },
@@ -83,6 +84,16 @@ func (c *Ctx) scanRun(groups ...string) {
 			c.Run.FixtureFails = append(c.Run.FixtureFails, "mini: scanner fixtures could not be analysed")
 		} else {
 			for _, g := range groups {
+				if g == "heredoc-spec" {
+					// the scanner fixtures have no heredoc machine: the rule's evaluator and specification are exercised on
+					// two small packages with the predicates alone
+					c.Fixture("mini", "heredoc-spec", false, func(p *load.Program, tb *kinds.Table) *report.RuleResult {
+						r := scandfa.HeredocSpecMethods(p, "internal/hdok")
+						r.Merge(scandfa.HeredocSpecMethods(p, "internal/hdbad"), "bad:")
+						return r
+					})
+					continue
+				}
 				good, broken := scanRules[g](ok), scanRules[g](bad)
 				for i := range good {
 					good[i].Merge(broken[i], "bad:")
@@ -146,7 +157,7 @@ func init() {
 	properties["SC"] = &Property{ // development aid: every scanner rule at once (not registered in the manifest)
 		Level: "other", Engine: "scandfa",
 		Run: func(c *Ctx) {
-			c.scanRun("token-rules", "newline-action", "newline-siblings", "newline-symmetry", "case-fold", "trivia-stay", "trivia-siblings", "idx-guard", "token-bounds", "mark-flow", "newline-neutral", "progress", "eof-final", "no-rescan", "num-classify", "pred-spec")
+			c.scanRun("token-rules", "newline-action", "newline-siblings", "newline-symmetry", "case-fold", "trivia-stay", "trivia-siblings", "idx-guard", "token-bounds", "mark-flow", "newline-neutral", "progress", "eof-final", "no-rescan", "num-classify", "pred-spec", "heredoc-spec")
 			c.ssaScan("pred-pure", "buf-readonly", "scanner-helpers")
 		},
 	}
